@@ -1,0 +1,183 @@
+//go:build verif
+
+package proxy
+
+// Contracts for govc (comment-only; compiled only with -tags verif). Property C20.
+// For every request kind: the local store is tried exactly once, first; only a not-leader answer
+// is forwarded, exactly once, to the address the store reports as leader, with the caller's
+// request, credentials, timeout and retries; the leader's results are returned unchanged; with
+// noForward nothing is sent; local results are returned unchanged otherwise.
+//
+//@ type Proxy
+//@   stable store, cluster
+//@   stable_set_in New
+//
+//@ func (*Proxy) leaderAddr
+//@   requires [recv] p != nil
+//@   ghost var a string = ""
+//@   ghost var e error = nil
+//@   ghost update @p.store.LeaderAddr: a = result0
+//@   ghost update @p.store.LeaderAddr: e = result1
+//@   ensures [nonempty] result1 == nil ==> (result0 == a && a != "" && e == nil)
+//@   ensures [nonempty-res] result1 == nil ==> result0 != ""
+//@   ensures [err] e != nil ==> result1 == e
+//@   ensures [notfound] (e == nil && a == "") ==> result1 == ErrLeaderNotFound
+//
+//@ func wrapIfUnauthorized
+//@   assigns nothing
+//@   ensures [nil] (err == nil) == (result == nil)
+
+//@ func (*Proxy) Execute
+//@   requires [recv] p != nil
+//@   ghost var nLocal int = 0
+//@   ghost var nRemote int = 0
+//@   ghost var lerr error = nil
+//@   ghost var rerr error = nil
+//@   ghost var ldr string = ""
+//@   ghost var l0 slice = nilslice
+//@   ghost var l1 int = 0
+//@   ghost var r0 slice = nilslice
+//@   ghost var r1 int = 0
+//@   assert @p.store.Execute: [local-first] nLocal == 0 && nRemote == 0 && arg1 == er
+//@   ghost update @p.store.Execute: nLocal = nLocal + 1
+//@   ghost update @p.store.Execute: lerr = result2
+//@   ghost update @p.store.Execute: l0 = result0
+//@   ghost update @p.store.Execute: l1 = result1
+//@   ghost update @p.leaderAddr: ldr = result0
+//@   assert @p.cluster.Execute: [forward-only-if-not-leader] nLocal == 1 && nRemote == 0 && isErr(lerr, store.ErrNotLeader) && !noForward
+//@   assert @p.cluster.Execute: [forward-verbatim] arg1 == er && arg2 == ldr && ldr != "" && arg3 == creds && arg4 == timeout && arg5 == retries
+//@   ghost update @p.cluster.Execute: nRemote = nRemote + 1
+//@   ghost update @p.cluster.Execute: rerr = result2
+//@   ghost update @p.cluster.Execute: r0 = result0
+//@   ghost update @p.cluster.Execute: r1 = result1
+//@   ensures [local-once] nLocal == 1 && nRemote <= 1
+//@   ensures [local-verbatim] !isErr(lerr, store.ErrNotLeader) ==> (nRemote == 0 && result0 == l0 && result1 == l1 && result3 == lerr)
+//@   ensures [no-forward] (isErr(lerr, store.ErrNotLeader) && noForward) ==> (nRemote == 0 && result3 == ErrNotLeader)
+//@   ensures [remote-verbatim] (nRemote == 1 && rerr == nil) ==> (result0 == r0 && result1 == r1 && result2 == ldr && result3 == nil)
+//@   ensures [remote-error] (nRemote == 1 && rerr != nil) ==> result3 != nil
+//
+//@ func (*Proxy) Query
+//@   requires [recv] p != nil
+//@   ghost var nLocal int = 0
+//@   ghost var nRemote int = 0
+//@   ghost var lerr error = nil
+//@   ghost var rerr error = nil
+//@   ghost var ldr string = ""
+//@   ghost var l0 slice = nilslice
+//@   ghost var l2 int = 0
+//@   ghost var r0 slice = nilslice
+//@   ghost var r1 int = 0
+//@   assert @p.store.Query: [local-first] nLocal == 0 && nRemote == 0 && arg1 == qr
+//@   ghost update @p.store.Query: nLocal = nLocal + 1
+//@   ghost update @p.store.Query: lerr = result3
+//@   ghost update @p.store.Query: l0 = result0
+//@   ghost update @p.store.Query: l2 = result2
+//@   ghost update @p.leaderAddr: ldr = result0
+//@   assert @p.cluster.Query: [forward-only-if-not-leader] nLocal == 1 && nRemote == 0 && isErr(lerr, store.ErrNotLeader) && !noForward
+//@   assert @p.cluster.Query: [forward-verbatim] arg1 == qr && arg2 == ldr && ldr != "" && arg3 == creds && arg4 == timeout && arg5 == retries
+//@   ghost update @p.cluster.Query: nRemote = nRemote + 1
+//@   ghost update @p.cluster.Query: rerr = result2
+//@   ghost update @p.cluster.Query: r0 = result0
+//@   ghost update @p.cluster.Query: r1 = result1
+//@   ensures [local-once] nLocal == 1 && nRemote <= 1
+//@   ensures [local-verbatim] !isErr(lerr, store.ErrNotLeader) ==> (nRemote == 0 && result0 == l0 && result1 == l2 && result3 == lerr)
+//@   ensures [no-forward] (isErr(lerr, store.ErrNotLeader) && noForward) ==> (nRemote == 0 && result3 == ErrNotLeader)
+//@   ensures [remote-verbatim] (nRemote == 1 && rerr == nil) ==> (result0 == r0 && result1 == r1 && result2 == ldr && result3 == nil)
+//@   ensures [remote-error] (nRemote == 1 && rerr != nil) ==> result3 != nil
+//
+//@ func (*Proxy) Request
+//@   requires [recv] p != nil
+//@   ghost var nLocal int = 0
+//@   ghost var nRemote int = 0
+//@   ghost var lerr error = nil
+//@   ghost var rerr error = nil
+//@   ghost var ldr string = ""
+//@   ghost var l0 slice = nilslice
+//@   ghost var l1 int = 0
+//@   ghost var l2 int = 0
+//@   ghost var r0 slice = nilslice
+//@   ghost var r1 int = 0
+//@   ghost var r2 int = 0
+//@   assert @p.store.Request: [local-first] nLocal == 0 && nRemote == 0 && arg1 == eqr
+//@   ghost update @p.store.Request: nLocal = nLocal + 1
+//@   ghost update @p.store.Request: lerr = result3
+//@   ghost update @p.store.Request: l0 = result0
+//@   ghost update @p.store.Request: l1 = result1
+//@   ghost update @p.store.Request: l2 = result2
+//@   ghost update @p.leaderAddr: ldr = result0
+//@   assert @p.cluster.Request: [forward-only-if-not-leader] nLocal == 1 && nRemote == 0 && isErr(lerr, store.ErrNotLeader) && !noForward
+//@   assert @p.cluster.Request: [forward-verbatim] arg1 == eqr && arg2 == ldr && ldr != "" && arg3 == creds && arg4 == timeout && arg5 == retries
+//@   ghost update @p.cluster.Request: nRemote = nRemote + 1
+//@   ghost update @p.cluster.Request: rerr = result3
+//@   ghost update @p.cluster.Request: r0 = result0
+//@   ghost update @p.cluster.Request: r1 = result1
+//@   ghost update @p.cluster.Request: r2 = result2
+//@   ensures [local-once] nLocal == 1 && nRemote <= 1
+//@   ensures [local-verbatim] !isErr(lerr, store.ErrNotLeader) ==> (nRemote == 0 && result0 == l0 && result1 == l1 && result2 == l2 && result4 == lerr)
+//@   ensures [no-forward] (isErr(lerr, store.ErrNotLeader) && noForward) ==> (nRemote == 0 && result4 == ErrNotLeader)
+//@   ensures [remote-verbatim] (nRemote == 1 && rerr == nil) ==> (result0 == r0 && result1 == r1 && result2 == r2 && result3 == ldr && result4 == nil)
+//@   ensures [remote-error] (nRemote == 1 && rerr != nil) ==> result4 != nil
+//
+//@ func (*Proxy) Backup
+//@   requires [recv] p != nil
+//@   ghost var nLocal int = 0
+//@   ghost var nRemote int = 0
+//@   ghost var lerr error = nil
+//@   ghost var rerr error = nil
+//@   ghost var ldr string = ""
+//@   assert @p.store.Backup: [local-first] nLocal == 0 && nRemote == 0 && arg1 == br
+//@   ghost update @p.store.Backup: nLocal = nLocal + 1
+//@   ghost update @p.store.Backup: lerr = result0
+//@   ghost update @p.leaderAddr: ldr = result0
+//@   assert @p.cluster.Backup: [forward-only-if-not-leader] nLocal == 1 && nRemote == 0 && isErr(lerr, store.ErrNotLeader) && !noForward
+//@   assert @p.cluster.Backup: [forward-verbatim] arg1 == br && arg2 == ldr && ldr != "" && arg3 == creds && arg4 == timeout
+//@   ghost update @p.cluster.Backup: nRemote = nRemote + 1
+//@   ghost update @p.cluster.Backup: rerr = result0
+//@   ensures [local-once] nLocal == 1 && nRemote <= 1
+//@   ensures [local-verbatim] !isErr(lerr, store.ErrNotLeader) ==> (nRemote == 0 && result1 == lerr)
+//@   ensures [no-forward] (isErr(lerr, store.ErrNotLeader) && noForward) ==> (nRemote == 0 && result1 == ErrNotLeader)
+//@   ensures [remote-verbatim] (nRemote == 1 && rerr == nil) ==> (result0 == ldr && result1 == nil)
+//@   ensures [remote-error] (nRemote == 1 && rerr != nil) ==> result1 != nil
+//
+//@ func (*Proxy) Load
+//@   requires [recv] p != nil
+//@   ghost var nLocal int = 0
+//@   ghost var nRemote int = 0
+//@   ghost var lerr error = nil
+//@   ghost var rerr error = nil
+//@   ghost var ldr string = ""
+//@   assert @p.store.Load: [local-first] nLocal == 0 && nRemote == 0 && arg1 == lr
+//@   ghost update @p.store.Load: nLocal = nLocal + 1
+//@   ghost update @p.store.Load: lerr = result0
+//@   ghost update @p.leaderAddr: ldr = result0
+//@   assert @p.cluster.Load: [forward-only-if-not-leader] nLocal == 1 && nRemote == 0 && isErr(lerr, store.ErrNotLeader) && !noForward
+//@   assert @p.cluster.Load: [forward-verbatim] arg1 == lr && arg2 == ldr && ldr != "" && arg3 == creds && arg4 == timeout && arg5 == retries
+//@   ghost update @p.cluster.Load: nRemote = nRemote + 1
+//@   ghost update @p.cluster.Load: rerr = result0
+//@   ensures [local-once] nLocal == 1 && nRemote <= 1
+//@   ensures [local-verbatim] !isErr(lerr, store.ErrNotLeader) ==> (nRemote == 0 && result1 == lerr)
+//@   ensures [no-forward] (isErr(lerr, store.ErrNotLeader) && noForward) ==> (nRemote == 0 && result1 == ErrNotLeader)
+//@   ensures [remote-verbatim] (nRemote == 1 && rerr == nil) ==> (result0 == ldr && result1 == nil)
+//@   ensures [remote-error] (nRemote == 1 && rerr != nil) ==> result1 != nil
+//
+//@ func (*Proxy) Remove
+//@   requires [recv] p != nil
+//@   ghost var nLocal int = 0
+//@   ghost var nRemote int = 0
+//@   ghost var lerr error = nil
+//@   ghost var rerr error = nil
+//@   ghost var ldr string = ""
+//@   assert @p.store.Remove: [local-first] nLocal == 0 && nRemote == 0 && arg1 == rn
+//@   ghost update @p.store.Remove: nLocal = nLocal + 1
+//@   ghost update @p.store.Remove: lerr = result0
+//@   ghost update @p.leaderAddr: ldr = result0
+//@   assert @p.cluster.RemoveNode: [forward-only-if-not-leader] nLocal == 1 && nRemote == 0 && isErr(lerr, store.ErrNotLeader) && !noForward
+//@   assert @p.cluster.RemoveNode: [forward-verbatim] arg1 == rn && arg2 == ldr && ldr != "" && arg3 == creds && arg4 == timeout
+//@   ghost update @p.cluster.RemoveNode: nRemote = nRemote + 1
+//@   ghost update @p.cluster.RemoveNode: rerr = result0
+//@   ensures [local-once] nLocal == 1 && nRemote <= 1
+//@   ensures [local-verbatim] !isErr(lerr, store.ErrNotLeader) ==> (nRemote == 0 && result1 == lerr)
+//@   ensures [no-forward] (isErr(lerr, store.ErrNotLeader) && noForward) ==> (nRemote == 0 && result1 == ErrNotLeader)
+//@   ensures [remote-verbatim] (nRemote == 1 && rerr == nil) ==> (result0 == ldr && result1 == nil)
+//@   ensures [remote-error] (nRemote == 1 && rerr != nil) ==> result1 != nil
+//
